@@ -67,6 +67,10 @@ static void client(void)
 
 			if (g_freed[j])
 				continue;
+			if (a == 7) {
+				v_state.quit = 1;	/* iv_quit() from a handler: takes effect in iv_main, after this batch */
+				continue;
+			}
 			if (a == 0 || !v_f[j]->registered)
 				continue;
 			g_touched[j] = 1;
@@ -159,12 +163,12 @@ void h_iv_fd_poll_and_run(void)
 		if (g_freed[i])
 			continue;
 		__CPROVER_assert(v_f[i]->list_active.next == &v_f[i]->list_active || !v_f[i]->registered,
-				 "[C03] the ready batch is fully drained: no fd stays linked into it");
+				 "[C03,C02,C18] the ready batch is fully drained: no fd stays linked into it (its head lives on the stack of this call)");
 		for (b = 0; b < 3; b++) {
 			void (*h)(void *) = b == 0 ? v_f[i]->handler_in : b == 1 ? v_f[i]->handler_out : v_f[i]->handler_err;
 
 			__CPROVER_assert(IMPLIES(!g_touched[i] && (verif_in.rb[i] & (1 << b)) && h != NULL, g_calls[i][b] == 1),
-					 "[C02] a ready band with a handler is dispatched in this iteration unless a callback cleared it or unregistered the fd");
+					 "[C02,C07] a ready band with a handler is dispatched in this iteration unless a callback cleared it or unregistered the fd (a handler calling iv_quit does not cut the batch short)");
 			__CPROVER_assert(IMPLIES(!(verif_in.rb[i] & (1 << b)) || (h == NULL && !g_touched[i]), g_calls[i][b] == 0),
 					 "[C03] a band that was not reported, or has no handler, is never called");
 		}
